@@ -52,6 +52,11 @@ func c19TimeParam(fi *FuncInfo) (types.Object, int) {
 	return t, n
 }
 
+func c19IsFieldVar(o types.Object) bool {
+	v, ok := o.(*types.Var)
+	return ok && v.IsField()
+}
+
 func c19ParamIdx(fi *FuncInfo, o types.Object) int {
 	sig := fi.Obj.Type().(*types.Signature)
 	for i := 0; i < sig.Params().Len(); i++ {
@@ -139,6 +144,21 @@ func (m *c19Model) searchRoles(parents func(*FuncInfo) map[ast.Node]ast.Node) []
 					})
 				}
 			}
+			if pLo < 0 && c19IsFieldVar(lo) && c19IsFieldVar(hi) {
+				// the bounds are fields of a struct the function is handed (its receiver or an argument): the caller
+				// holds them in the same fields
+				for _, g := range m.reachList {
+					if g == fi {
+						continue
+					}
+					ast.Inspect(g.Decl.Body, func(n ast.Node) bool {
+						if call, ok := n.(*ast.CallExpr); ok && callee(info, call) == fi.Obj && s.enter == nil {
+							s.caller, s.enter = g, call
+						}
+						return true
+					})
+				}
+			}
 			if s.caller == nil {
 				continue
 			}
@@ -162,7 +182,7 @@ func (m *c19Model) searchRoles(parents func(*FuncInfo) map[ast.Node]ast.Node) []
 				// the results reach the bound variables directly or through plain copies (`lo, up, err := f(…); lower, upper = lo, up`)
 				iLo, iHi := -1, -1
 				for i, lhs := range as.Lhs {
-					x := objOf(info, lhs)
+					x := c19Target(info, ast.Unparen(lhs))
 					if x == nil {
 						continue
 					}
